@@ -195,8 +195,8 @@ def rules_trace_complete(run, r):
                   'every applied stabilisation step is returned', 'a stabilisation step is applied but not reported', s.node)
 
 
-def rules_macro(run):
-    r = run.rule('C03.6', 'each MacroStep property concatenates the attribute of the same name of its micro steps in order; transitions '
+def rules_macro(run, rid='C03.6'):
+    r = run.rule(rid, 'each MacroStep property concatenates the attribute of the same name of its micro steps in order; transitions '
                           'keeps the non-None ones; event is the first non-None')
     ci = run.prog.cls('MacroStep')
     init = ci.methods.get('__init__')
@@ -243,27 +243,27 @@ def rules_macro(run):
                 good = good and len(init_empty) == 1 and isinstance(init_empty[0], ast.List) and not init_empty[0].elts
             run.check(good, r, m.short, 'unconditional concatenation into the returned list', 'some micro-step entries may be dropped or duplicated', M)
         elif prop == 'transitions':
-            comps = [n for n in q.walk(M) if isinstance(n, ast.ListComp)]
-            good = len(comps) == 1 and q.unparse(comps[0].elt) == tv + '.transition' and len(comps[0].generators[0].ifs) == 1
+            accs = []
+            for x in [x for x in q.walk(M, False) if isinstance(x, ast.Return) and x.value is not None]:
+                v = strip_cast(x.value)
+                if isinstance(v, ast.ListComp) and len(v.generators) == 1:
+                    accs.append((v.elt, v.generators[0].iter, [(c_, True) for c_ in v.generators[0].ifs]))
+                elif isinstance(v, ast.Name):
+                    accs += [(e_, it_, cs_) for e_, it_, cs_, nd_ in q.accumulations(M, v.id)]
+            good = len(accs) == 1 and accs[0][0] is not None and q.unparse(accs[0][0]) == tv + '.transition' and len(accs[0][2]) == 1
             if good:
-                c = q.canon_atom(comps[0].generators[0].ifs[0])
-                good = c in (('truthy', tv + '.transition', '', True), ('is', tv + '.transition', 'None', False))
+                c_, pol_ = accs[0][2][0]
+                good = cfg_atoms(c_, pol_) in ([('truthy', tv + '.transition', '')], [('is not', tv + '.transition', 'None')])
             run.check(good, r, m.short, 'exactly the non-None transitions', 'transitions must be those of the micro steps that have one', M)
         elif prop == 'event':
-            rets = [n for n in q.walk(M, False) if isinstance(n, ast.Return)]
-            inl = [x for x in rets if q.in_node(x, outer[0])]
-            good = len(inl) == 1 and q.unparse(inl[0].value) == tv + '.event'
+            fm = q.first_matches(M)
+            good = len(fm) == 1
             if good:
-                at = guard_atoms(inl[0], stop=outer[0])
-                good = at in ([('truthy', tv + '.event', '')], [('is not', tv + '.event', 'None')])
-            if not good and len(rets) == 1:
-                # return next((step.event for step in self._steps if step.event), None)
-                v = strip_cast(rets[0].value)
-                if isinstance(v, ast.Call) and isinstance(v.func, ast.Name) and v.func.id == 'next' and len(v.args) == 2 and isinstance(v.args[0], ast.GeneratorExp) \
-                        and isinstance(v.args[1], ast.Constant) and v.args[1].value is None:
-                    g = v.args[0]
-                    good = len(g.generators) == 1 and g.generators[0] is outer[0] and q.unparse(g.elt) == tv + '.event' and len(g.generators[0].ifs) == 1 \
-                        and cfg_atoms(g.generators[0].ifs[0], True) in ([('truthy', tv + '.event', '')], [('is not', tv + '.event', 'None')])
+                e_, v_, it_, cs_, d_ = fm[0]
+                ats = [a for c_, p_ in cs_ for a in cfg_atoms(c_, p_)]
+                good = q.unparse(e_) == v_ + '.event' and dotted(strip_cast(it_)) in ('self.' + fld, 'self.steps') and \
+                    ats in ([('truthy', v_ + '.event', '')], [('is not', v_ + '.event', 'None')]) and \
+                    (d_ is None or (isinstance(d_, ast.Constant) and d_.value is None))
             run.check(good, r, m.short, 'first non-None event', 'event must be the first event carried by a micro step', M)
     for prop, f in (('steps', fld), ('time', stored.get('time', '_time'))):
         m = ci.methods.get(prop)
